@@ -116,6 +116,10 @@ theorem svcT_armTtl (s : Stack) (ttl : Nat) (cb : Cb) (h : isSvcExpiry cb = fals
 @[simp] theorem svcT_with_findLog (s : Stack) (x : List (Nat × Nat)) : svcT { s with findLog := x } = svcT s := rfl
 @[simp] theorem svcT_with_findMarks (s : Stack) (x : List (Nat × Nat)) : svcT { s with findMarks := x } = svcT s := rfl
 @[simp] theorem svcT_with_ansLog (s : Stack) (x : List (Nat × Addr × Nat × Nat)) : svcT { s with ansLog := x } = svcT s := rfl
+@[simp] theorem svcT_with_lisLog (s : Stack) (x : List (LId × Bool × SvcKey × Addr)) : svcT { s with lisLog := x } = svcT s := rfl
+@[simp] theorem svcT_logLis (s : Stack) (id : LId) (o : Bool) (k : SvcKey) (a : Addr) : svcT (s.logLis id o k a) = svcT s := rfl
+@[simp] theorem svcT_with_lisDup (s : Stack) (x : Bool) : svcT { s with lisDup := x } = svcT s := rfl
+@[simp] theorem svcT_markDup (s : Stack) (d : Bool) : svcT (s.markDup d) = svcT s := rfl
 @[simp] theorem svcT_logAnswer (s : Stack) (i : Nat) (a : Addr) (d : Nat) : svcT (s.logAnswer i a d) = svcT s := rfl
 @[simp] theorem svcT_markFind (s : Stack) (n : Nat) : svcT (s.markFind n) = svcT s := rfl
 @[simp] theorem svcT_with_offLog (s : Stack) (x : List (Nat × OEv × Nat)) : svcT { s with offLog := x } = svcT s := rfl
@@ -292,13 +296,13 @@ theorem svcT_armTtl (s : Stack) (ttl : Nat) (cb : Cb) (h : isSvcExpiry cb = fals
   rw [foldl_pres svcT _ (fun s p => by frame_cases)]
 
 @[simp] theorem svcT_watchService (s : Stack) (f : Service) (l : Listener) : svcT (s.watchService f l) = svcT s := by
-  unfold watchService; simp only []; rw [svcT_replay]; rfl
+  unfold watchService; simp only []; rw [svcT_markDup, svcT_replay]; rfl
 @[simp] theorem svcT_stopWatchService (s : Stack) (f : Service) (l : Listener) : svcT (s.stopWatchService f l) = svcT s := by
   unfold stopWatchService; simp only []; split
   · simp
   · rw [svcT_replay]; rfl
 @[simp] theorem svcT_watchAllServices (s : Stack) (id : LId) : svcT (s.watchAllServices id) = svcT s := by
-  unfold watchAllServices; rw [svcT_replay]; rfl
+  unfold watchAllServices; rw [svcT_markDup, svcT_replay]; rfl
 @[simp] theorem svcT_stopWatchAllServices (s : Stack) (id : LId) : svcT (s.stopWatchAllServices id) = svcT s := by
   unfold stopWatchAllServices; split
   · simp
